@@ -138,13 +138,14 @@ type vfSwitch struct {
 	failListen map[int]bool // n-th listen fails
 	listens    int
 	onEmit     func(*vfDgram)
+	failWrite  map[string]int // owner -> number of upcoming WriteTo calls that fail with an I/O error
 }
 
 func newVfSwitch() *vfSwitch {
 	return &vfSwitch{
 		eps: map[netip.AddrPort]*vfConn{}, nextPort: 40000,
 		natPub: map[netip.Addr]netip.Addr{}, natPriv: map[netip.Addr]netip.Addr{},
-		unreach: map[[2]netip.Addr]bool{}, pwds: map[string]string{},
+		unreach: map[[2]netip.Addr]bool{}, pwds: map[string]string{}, failWrite: map[string]int{},
 	}
 }
 
@@ -323,6 +324,14 @@ func (c *vfConn) WriteTo(p []byte, addr net.Addr) (int, error) {
 	if !ok {
 		return 0, errors.New("not a UDP address")
 	}
+	c.sw.mu.Lock()
+	if c.sw.failWrite[c.owner] > 0 {
+		c.sw.failWrite[c.owner]--
+		c.sw.mu.Unlock()
+
+		return 0, errors.New("vfConn: injected write failure")
+	}
+	c.sw.mu.Unlock()
 	c.sw.emit(c, canonicalAddrPort(ua.AddrPort()), p, false)
 
 	return len(p), nil
